@@ -6,7 +6,7 @@ import vlib
 
 ID = "C20"
 THEOREMS = ["C20_roundtrip", "C20_target_roundtrip", "C20_root_refuted", "C20_root_only_exception",
-            "C20_parse_never_unreachable", "C20_overflow_panics", "C20_no_panic_in_range",
+            "C20_parse_never_unreachable", "C20_overflow_invalid", "C20_never_panics",
             "C20_render_agree", "C20_agree", "C20_agree_short", "C20_template_refuted", "C20_roundtrip_nonvacuous"]
 IMPORTS = ("From Coq Require Import List NArith ZArith String.\n"
            "From VRL Require Import Base.Bytes Base.Value Base.Lit Model.PathText Model.VrlPathLex Corr.C20.\n"
@@ -18,8 +18,8 @@ MANIFEST = {
                  "parse_target_path and the VRL parser/compiler (all short texts over the path alphabet, random paths)",
     "text": "Closed Coq theorems: for every non-empty value path with isize indices parse(render p) = Ok p; the same for "
             "event paths (root included) and non-root metadata paths; the value root and the metadata root are exactly "
-            "the paths that do not round-trip (refuted with witnesses = known finding); the parser panics only on index "
-            "overflow. The VRL-source half is a hand model of the lexer/grammar path fragment (vrl_path): proved, for every "
+            "the paths that do not round-trip (refuted with witnesses = known finding); the parsers never panic and an "
+            "index outside isize is invalid syntax. The VRL-source half is a hand model of the lexer/grammar path fragment (vrl_path): proved, for every "
             "text free of template syntax, that when both readers accept they return the same target path (C20_agree), "
             "that both read every rendered spellable path as that path, and re-checked by kernel evaluation on all 5.2M texts "
             "of <= 6 symbols over the path alphabet; inside the template-syntax class the agreement is refuted (recorded "
@@ -313,7 +313,6 @@ def to_coq(c, o):
 
 
 # ---- known findings: classify *why* the oracle fails on a case (python mirror of Corr/C20.v oracle, for the matcher only)
-OVERFLOW_RE = re.compile(r"\[-?[0-9]{19,}")
 
 
 def failure_tags(c, o):
@@ -325,7 +324,7 @@ def failure_tags(c, o):
     def nf(part, is_root):
         r = part["res"]
         if r == "panic":
-            tags.add("overflow" if OVERFLOW_RE.search(text()) else "other")
+            tags.add("other")
         elif r != "err":
             if part.get("reparse") != r:
                 tags.add("root" if is_root(r["ok"]) and part.get("reparse") == "err" else "other")
@@ -341,16 +340,16 @@ def failure_tags(c, o):
         nf(o["target"], lambda tp: tp["p"] == [] and tp["prefix"] == "metadata")
     elif c["op"] == "vrl":
         if o["target"] == "panic":
-            tags.add("overflow" if OVERFLOW_RE.search(text()) else "other")
+            tags.add("other")
         ast = None if o["ast"] in ("none", "panic") else o["ast"]["some"]
         if ast is not None and isinstance(o["target"], dict) and o["target"]["ok"] != ast:
             tags.add("template" if ("{{" in text() or "\\}}" in text()) else "other")
         if ast is not None and o["compiled"] != {"ok": [ast]}:
-            tags.add("minindex" if o["compiled"] == "panic" and "-9223372036854775808" in text().replace("_", "") else "other")
+            tags.add("other")
         if o["ast"] == "panic":
             tags.add("other")
         elif ast is None and o["compiled"] == "panic":
-            tags.add("minindex" if "-9223372036854775808" in text().replace("_", "") else "other")
+            tags.add("other")
     return tags
 
 
